@@ -15,7 +15,12 @@ T6 == << <<"cfg">>, <<"key">>, <<"new">> >> \o
       [k \in 1..(3 * 70) |-> LET i == ((k - 1) \div 3) + 1  j == (k - 1) % 3 IN
           IF j = 0 THEN <<"file", Nm(i)>> ELSE IF j = 1 THEN <<"append", Nm(i), 1 + (i % 9)>> ELSE <<"close", Nm(i)>>] \o
       << <<"end">> >>
-AllTemplates == <<T1, T2, T3, T4, T5, T6>>
+\* ... and 1 100 files (more than any pool of a thousand descriptors or destinations)
+T7 == << <<"cfg">>, <<"key">>, <<"new">> >> \o
+      [k \in 1..(3 * 1100) |-> LET i == ((k - 1) \div 3) + 1  j == (k - 1) % 3 IN
+          IF j = 0 THEN <<"file", Nm(i)>> ELSE IF j = 1 THEN <<"append", Nm(i), 1 + (i % 9)>> ELSE <<"close", Nm(i)>>] \o
+      << <<"end">> >>
+AllTemplates == <<T1, T2, T3, T4, T5, T6, T7>>
 Replay == (phase = "done") => PrintT(<<"REPLAY", ToJson([tpl |-> tpl, calls |-> Calls, fault |-> fault, sched |-> sched, decline |-> decline,
                                                           expect |-> expect, complete |-> ArchiveComplete])>>)
 =============================================================================
